@@ -218,6 +218,42 @@ type vrDec struct {
 	run   func(s string) (enc string, str string, obj bool, err error)
 }
 
+// scores and severities of every level reachable from a fresh decoder of the given level applied to s (C09: they
+// depend only on the set of tokens - not on their order, not on X being written or omitted)
+func vrScores(level int, s string) string {
+	switch level {
+	case 0:
+		m, e := NewBase().Decode(s)
+		if e != nil {
+			return "error"
+		}
+		return fmt.Sprint(m.Score(), m.Severity())
+	case 1:
+		m, e := NewTemporal().Decode(s)
+		if e != nil {
+			return "error"
+		}
+		return fmt.Sprint(m.Score(), m.Severity(), m.BaseMetrics().Score(), m.BaseMetrics().Severity())
+	default:
+		m, e := NewEnvironmental().Decode(s)
+		if e != nil {
+			return "error"
+		}
+		return fmt.Sprint(m.Score(), m.Severity(), m.TemporalMetrics().Score(), m.TemporalMetrics().Severity(), m.BaseMetrics().Score(), m.BaseMetrics().Severity())
+	}
+}
+
+// s without its explicitly written X tokens
+func vrDropX(s string) string {
+	var out []string
+	for _, t := range strings.Split(s, "/") {
+		if !strings.HasSuffix(t, ":X") {
+			out = append(out, t)
+		}
+	}
+	return strings.Join(out, "/")
+}
+
 func TestVerifDecodeSearch(t *testing.T) {
 	decs := []vrDec{
 		{"Base", 0, func(s string) (string, string, bool, error) { m, e := NewBase().Decode(s); if m == nil { return "", "", false, e }; x, _ := m.Encode(); return x, m.String(), true, e }},
@@ -239,6 +275,9 @@ func TestVerifDecodeSearch(t *testing.T) {
 		"CVSS:3.1/MPR:L/AV:N/AC:L/PR:N/UI:N/S:C/C:H/I:H/A:H/MA:X",
 		"CVSS:3.1/AV:N/AC:L/PR:N/UI:N/S:U/C:H/I:H/A:H/CR:H/IR:M/AR:L/MAV:N/MAC:L/MPR:N/MUI:N/MS:X/MC:H/MI:H/MA:H/E:F/RL:O/RC:C",
 		"CVSS:3.0/CR:L/IR:L/AR:L/MAV:P/MAC:H/MPR:H/MUI:R/MS:C/MC:L/MI:L/MA:L/E:U/RL:T/RC:R/AV:N/AC:L/PR:N/UI:N/S:U/C:H/I:H/A:H",
+		"CVSS:3.1/MS:X/MPR:X/CR:X/E:X/AV:N/AC:L/PR:L/UI:N/S:C/C:H/I:H/A:H",
+		"CVSS:3.0/MS:X/MC:X/MAV:X/RL:X/AV:L/AC:H/PR:H/UI:R/S:C/C:L/I:H/A:L/IR:H",
+		"CVSS:3.1/MS:U/MPR:H/AV:N/AC:L/PR:L/UI:N/S:C/C:H/I:H/A:H/E:X",
 	}
 	junk := []string{"E:H", "RL:X", "MAV:N", "CR:X", "MI:N", "XX:N", "AVN", "AV:", ":N", "AV:N:X", "", "AV:\xff", "Au:N", "CDP:H", "av:n", "AV:N ", "CVSS:3.1", "CVSS:2.0"}
 	cands := vrCandidates(valid, junk)
@@ -275,6 +314,10 @@ func TestVerifDecodeSearch(t *testing.T) {
 						msg = fmt.Sprintf("C09/C10: Encode()=%q, canonical form of the written values is %q", enc, canon)
 					} else if str != enc {
 						msg = fmt.Sprintf("C10: String()=%q differs from Encode()=%q", str, enc)
+					} else if a, b := vrScores(d.level, s), vrScores(d.level, canon); a != b {
+						msg = fmt.Sprintf("C09: scores/severities %s, but %s for the same tokens in canonical order %q", a, b, canon)
+					} else if c := vrScores(d.level, vrDropX(s)); a != c {
+						msg = fmt.Sprintf("C09: scores/severities %s, but %s with the X tokens omitted", a, c)
 					}
 				}
 			}()
